@@ -8,8 +8,9 @@
 //!     `aircraft_information`) must exist, carry a `pattern`, and that regex (real `regex` crate) must match
 //!     the registration.
 //! On the sampled addresses (block/scheme edges ±2, random) the real `aircraft_information(hex, None)` is
-//! called as well: its `registration` must be `tail()`, its `country` must be the country of a `registers`
-//! entry one of whose patterns matches the registration.
+//! called as well: its `registration` must be `tail()`, its `country` must be the country of the narrowest block
+//! containing the address or of a matching category of that block (audit e F3) and, inside 20 literal Annex 10
+//! allocations, that State (audit e F4, `allocation-literal`).
 //!
 //! Correspondence cases: `tail h`, `country h` lines at every block/scheme edge ±2, random 24-bit addresses,
 //! out-of-range 32-bit values, and `tails lo n` digests (FNV-1a of the answers of n consecutive addresses):
@@ -38,6 +39,8 @@ struct Blk {
     country: String,
     pattern: Option<String>,
     re: Option<Regex>,
+    /// (compiled pattern, country it names — if any) of every category of the block
+    cats: Vec<(Regex, Option<String>)>,
 }
 
 struct Ctx {
@@ -59,13 +62,43 @@ impl Ctx {
             if let (Some(s), Some(e)) = (&r.start, &r.end) {
                 let start = u32::from_str_radix(&s[2..], 16).expect("start");
                 let end = u32::from_str_radix(&e[2..], 16).expect("end");
-                blocks.push(Blk { start, end, country: r.country.clone(), pattern: r.pattern.clone(), re });
+                let cats = r
+                    .categories
+                    .iter()
+                    .flatten()
+                    .map(|c| (Regex::new(&c.pattern).expect("category pattern of patterns.json"), c.country.clone()))
+                    .collect();
+                blocks.push(Blk { start, end, country: r.country.clone(), pattern: r.pattern.clone(), re, cats });
             }
         }
         Ctx { blocks, national, seen: HashMap::new() }
     }
     fn block_of(&self, h: u32) -> Option<&Blk> {
         self.blocks.iter().find(|b| h >= b.start && h <= b.end)
+    }
+    /// The block(s) the table ASSIGNS to an address (audit e F3; written from the property text, not from the
+    /// implementation's search order): allocations nest — a State's block lies inside its region's "Unassigned (…
+    /// region)" block — and an address belongs to the narrowest block containing it.  Several blocks only when
+    /// the table lists the very same narrowest range twice.
+    fn assigned(&self, h: u32) -> Vec<&Blk> {
+        let inside: Vec<&Blk> = self.blocks.iter().filter(|b| h >= b.start && h <= b.end).collect();
+        match inside.iter().map(|b| b.end - b.start).min() {
+            None => vec![],
+            Some(w) => inside.into_iter().filter(|b| b.end - b.start == w).collect(),
+        }
+    }
+    /// The countries the table allows `aircraft_information` to report for address `h` showing registration `reg`:
+    /// the country of the assigned block, or the country named by a category of that block whose pattern matches
+    /// the registration (Hong Kong inside China's block, Bermuda inside the United Kingdom's, …).
+    fn countries_allowed(&self, h: u32, reg: Option<&str>) -> Vec<String> {
+        let mut v = vec![];
+        for b in self.assigned(h) {
+            v.push(b.country.clone());
+            if let Some(reg) = reg {
+                v.extend(b.cats.iter().filter(|(re, _)| re.is_match(reg)).filter_map(|(_, c)| c.clone()));
+            }
+        }
+        v
     }
 }
 
@@ -113,6 +146,63 @@ fn oracle(out: &mut Out, ctx: &mut Ctx, h: u32, r: &Option<Option<String>>) {
     }
 }
 
+// ---------------------------------------------------------------- literal allocations (audit e, F4)
+/// ICAO Annex 10 Vol III Part I ch. 9, Table 9-1: allocation of 24-bit aircraft addresses to States — the rows below
+/// are LITERALS of the harness (country spelled as patterns.json spells it), so that an oracle exists which does
+/// not move when patterns.json moves.  (first address, last address, State)
+const ALLOCATIONS: &[(u32, u32, &str)] = &[
+    (0x100000, 0x1FFFFF, "Russia"),
+    (0x300000, 0x33FFFF, "Italy"),
+    (0x340000, 0x37FFFF, "Spain"),
+    (0x380000, 0x3BFFFF, "France"),
+    (0x3C0000, 0x3FFFFF, "Germany"),
+    (0x400000, 0x43FFFF, "United Kingdom"),
+    (0x448000, 0x44FFFF, "Belgium"),
+    (0x480000, 0x487FFF, "The Netherlands"),
+    (0x4A8000, 0x4AFFFF, "Sweden"),
+    (0x4B0000, 0x4B7FFF, "Switzerland"),
+    (0x4B8000, 0x4BFFFF, "Turkey"),
+    (0x718000, 0x71FFFF, "Republic of Korea"),
+    (0x780000, 0x7BFFFF, "China"),
+    (0x7C0000, 0x7FFFFF, "Australia"),
+    (0x800000, 0x83FFFF, "India"),
+    (0x840000, 0x87FFFF, "Japan"),
+    (0xA00000, 0xAFFFFF, "United States"),
+    (0xC00000, 0xC3FFFF, "Canada"),
+    (0xE00000, 0xE3FFFF, "Argentina"),
+    (0xE40000, 0xE7FFFF, "Brazil"),
+];
+/// Territories whose aircraft carry an address of the State's block and a registration mark of their own: the
+/// only other names that may be reported inside that State's block, and only next to a registration.
+const TERRITORIES: &[(&str, &[&str])] = &[
+    (
+        "United Kingdom",
+        &[
+            "Jersey", "Guernsey", "Isle of Man", "Bermuda", "Anguilla", "Cayman Islands", "Falkland Islands", "Gibraltar",
+            "Virgin Islands", "Montserrat", "Saint Helena, Ascension and Tristan da Cunha", "Turks and Caicos Islands",
+        ],
+    ),
+    ("China", &["Hong Kong", "Macau"]),
+    ("The Netherlands", &["Aruba", "Caribbean Netherlands"]),
+];
+
+/// `allocation-literal`: inside a literal allocation the reported country is that State (or, next to a
+/// registration, one of its territories)
+fn judge_allocation(out: &mut Out, line: &str, h: u32, country: Option<&str>, reg: Option<&str>) {
+    let Some((s, e, state)) = ALLOCATIONS.iter().find(|(s, e, _)| *s <= h && h <= *e) else { return };
+    out.stat("allocation-literal:judged");
+    let terr: &[&str] = TERRITORIES.iter().find(|(st, _)| st == state).map(|(_, t)| *t).unwrap_or(&[]);
+    match country {
+        Some(c) if c == *state => {}
+        Some(c) if reg.is_some() && terr.contains(&c) => out.stat("allocation-literal:territory"),
+        got => out.fail(
+            "allocation-literal",
+            line,
+            &format!("{h:06x} lies in the block {s:06x}-{e:06x} allocated to {state} (Annex 10, literal of the harness); reported country: {got:?}, registration {reg:?}"),
+        ),
+    }
+}
+
 fn opt(s: &Option<String>) -> &str {
     s.as_deref().unwrap_or("-")
 }
@@ -137,11 +227,25 @@ fn do_country(out: &mut Out, ctx: &mut Ctx, h: u32) {
             if t != Some(i.registration.clone()) {
                 out.fail("info-registration", &line, &format!("aircraft_information says {:?}, tail() says {:?}", i.registration, t));
             }
+            // the country reported is the one the table assigns to the address (audit e F3: the former test accepted
+            // ANY reported country as soon as the block's own pattern matched the registration)
+            let allowed = ctx.countries_allowed(h, i.registration.as_deref());
+            match &i.country {
+                Some(c) if !allowed.contains(c) => out.fail(
+                    "country-mismatch",
+                    &line,
+                    &format!("country {c:?} reported for {hexs} (registration {:?}); the table assigns {allowed:?}", i.registration),
+                ),
+                None if !allowed.is_empty() && i.registration.is_none() => {
+                    out.fail("country-mismatch", &line, &format!("no country reported for {hexs}; the table assigns {allowed:?}"))
+                }
+                _ => {}
+            }
             if let Some(reg) = &i.registration {
                 match &i.country {
                     None => out.fail("country-no-block", &line, &format!("{reg} returned, but the table assigns no country to {hexs}")),
                     Some(c) => {
-                        // the prefix must belong to the country the table assigns (after category refinement)
+                        // … and the prefix must belong to that country
                         let blk_country = ctx.block_of(h).map(|b| b.country.clone());
                         let ok = ctx.national.iter().any(|(cc, re)| (cc == c || Some(cc) == blk_country.as_ref()) && re.is_match(reg));
                         if !ok {
@@ -150,6 +254,7 @@ fn do_country(out: &mut Out, ctx: &mut Ctx, h: u32) {
                     }
                 }
             }
+            judge_allocation(out, &line, h, i.country.as_deref(), i.registration.as_deref());
         }
     }
 }
@@ -194,6 +299,7 @@ fn do_infor(out: &mut Out, h: u32, reg: &str) {
             if i.country != want {
                 out.fail("country-mismatch", &line, &format!("country {:?}, the table says {want:?}", i.country));
             }
+            judge_allocation(out, &line, h, i.country.as_deref(), i.registration.as_deref());
             out.stat(if i.category.is_some() { "infor:category" } else if i.country.is_some() { "infor:block" } else { "infor:no-block" });
         }
     }
@@ -440,6 +546,16 @@ pub fn run(out: &mut Out, rng: &mut Rng, thorough: bool) {
         };
         do_tail(out, &mut ctx, h);
         if k % 8 == 0 {
+            do_country(out, &mut ctx, h);
+        }
+    }
+    // the literal allocations (audit e F4): both ends, their neighbours inside, random addresses inside
+    for (s, e, _) in ALLOCATIONS {
+        let mut hs = vec![*s, *s + 1, *e - 1, *e, (*s + *e) / 2];
+        for _ in 0..(if thorough { 2000 } else { 250 }) {
+            hs.push(*s + rng.below((*e - *s) as u64 + 1) as u32);
+        }
+        for h in hs {
             do_country(out, &mut ctx, h);
         }
     }
